@@ -14,6 +14,7 @@ import Mathlib.Tactic.NormNum
 namespace TPV.Poly
 open TPV.Geom
 set_option linter.unusedSectionVars false
+set_option linter.unusedSimpArgs false
 variable {K : Type} [Field K] [LinearOrder K] [IsStrictOrderedRing K]
 
 /-! ## 0. basic facts -/
@@ -670,5 +671,383 @@ theorem covers_in_bbox (P : Polygon K) (b : K × K × K × K) (hb : polyBBox P =
   | exterior => simp [ho] at h
   | boundary => exact onRing_in_box P.outer b (vertex_in_bbox P b hb) p ((ringLocate_boundary_iff _ _).mp ho)
   | interior => exact ringOdd_in_box P.outer b (vertex_in_bbox P b hb) p ((ringLocate_interior_iff _ _).mp ho).2
+
+/-! ## 5. axis-parallel rectangles: the interval test -/
+
+theorem crosses_false_iff (a b p : Pt K) : crosses a b p = false ↔
+    ¬ ((a.2 ≤ p.2 ∧ p.2 < b.2 ∧ 0 < orient a b p) ∨ (b.2 ≤ p.2 ∧ p.2 < a.2 ∧ orient a b p < 0)) := by
+  rw [← crosses_iff, Bool.not_eq_true]
+
+/-- a horizontal edge is never counted -/
+theorem crosses_horizontal (a b p : Pt K) (h : a.2 = b.2) : crosses a b p = false := by
+  rw [crosses_false_iff, h]
+  rintro (⟨h1, h2, _⟩ | ⟨h1, h2, _⟩) <;> linarith
+
+/-- **for an axis-parallel rectangle the membership test is the (open) interval test in both coordinates** -/
+theorem rect_contains_iff (x0 x1 y0 y1 : K) (hx : x0 < x1) (hy : y0 < y1) (p : Pt K) :
+    polyContains ⟨[(x0, y0), (x1, y0), (x1, y1), (x0, y1)], []⟩ p = true ↔
+      (x0 < p.1 ∧ p.1 < x1) ∧ (y0 < p.2 ∧ p.2 < y1) := by
+  obtain ⟨px, py⟩ := p
+  rw [polyContains_iff]
+  simp only [List.not_mem_nil, false_imp_iff, implies_true, and_true, ringLocate_interior_iff]
+  have hedges : ringEdges [(x0, y0), (x1, y0), (x1, y1), (x0, y1)] =
+      [((x0, y0), (x1, y0)), ((x1, y0), (x1, y1)), ((x1, y1), (x0, y1)), ((x0, y1), (x0, y0))] := rfl
+  simp only [onRing, ringOdd, hedges, List.any_cons, List.any_nil, List.map_cons, List.map_nil, xorAll,
+    List.foldr_cons, List.foldr_nil, Bool.or_false, Bool.xor_false, Bool.or_eq_false_iff]
+  rw [crosses_horizontal (x0, y0) (x1, y0) (px, py) rfl, crosses_horizontal (x1, y1) (x0, y1) (px, py) rfl]
+  simp only [Bool.false_xor]
+  have hw := sub_pos.mpr hx
+  have hh := sub_pos.mpr hy
+  have s1 := onSeg_iff (x0, y0) (x1, y0) (px, py)
+  have s2 := onSeg_iff (x1, y0) (x1, y1) (px, py)
+  have s3 := onSeg_iff (x1, y1) (x0, y1) (px, py)
+  have s4 := onSeg_iff (x0, y1) (x0, y0) (px, py)
+  have c2 := crosses_iff (x1, y0) (x1, y1) (px, py)
+  have c4 := crosses_iff (x0, y1) (x0, y0) (px, py)
+  simp only [orient, sub_self, zero_mul, mul_zero, zero_sub, sub_zero, min_self, max_self, min_eq_left hx.le,
+    max_eq_right hx.le, min_eq_right hx.le, max_eq_left hx.le, min_eq_left hy.le, max_eq_right hy.le,
+    min_eq_right hy.le, max_eq_left hy.le] at s1 s2 s3 s4 c2 c4
+  constructor
+  · rintro ⟨⟨n1, n2, n3, n4⟩, hodd⟩
+    rw [Bool.eq_false_iff, Ne, s1] at n1
+    rw [Bool.eq_false_iff, Ne, s2] at n2
+    rw [Bool.eq_false_iff, Ne, s3] at n3
+    rw [Bool.eq_false_iff, Ne, s4] at n4
+    cases h2 : crosses (x1, y0) (x1, y1) (px, py) <;> cases h4 : crosses (x0, y1) (x0, y0) (px, py) <;>
+      rw [h2, h4] at hodd <;> simp only [Bool.xor_self, Bool.false_eq_true, Bool.xor_false, Bool.false_xor, Bool.xor_true,
+        Bool.not_true, Bool.not_false] at hodd
+    · -- only the left edge crossed: impossible
+      rcases c4.mp h4 with ⟨h, h', _⟩ | ⟨a1, a2, a3⟩
+      · linarith
+      · exfalso
+        have : px < x0 := by nlinarith
+        have hn : ¬ crosses (x1, y0) (x1, y1) (px, py) = true := by rw [h2]; simp
+        apply hn
+        rw [c2]
+        left
+        refine ⟨a1, a2, ?_⟩
+        nlinarith
+    · -- only the right edge crossed
+      rcases c2.mp h2 with ⟨a1, a2, a3⟩ | ⟨h, h', _⟩
+      · have hpx1 : px < x1 := by nlinarith
+        have hn : ¬ crosses (x0, y1) (x0, y0) (px, py) = true := by rw [h4]; simp
+        rw [c4] at hn
+        have hpx0 : x0 ≤ px := by
+          by_contra hc
+          apply hn
+          right
+          refine ⟨a1, a2, ?_⟩
+          have := not_le.mp hc
+          nlinarith
+        refine ⟨⟨lt_of_le_of_ne hpx0 ?_, hpx1⟩, lt_of_le_of_ne a1 ?_, a2⟩
+        · intro e
+          apply n4
+          subst e
+          exact ⟨by ring, le_refl _, le_refl _, a1, a2.le⟩
+        · intro e
+          apply n1
+          subst e
+          exact ⟨by ring, hpx0, hpx1.le, le_refl _, le_refl _⟩
+      · linarith
+  · rintro ⟨⟨h1, h2⟩, h3, h4⟩
+    refine ⟨⟨?_, ?_, ?_, ?_⟩, ?_⟩
+    · rw [Bool.eq_false_iff, Ne, s1]; rintro ⟨_, _, _, h, h'⟩; linarith
+    · rw [Bool.eq_false_iff, Ne, s2]; rintro ⟨_, h, h', _, _⟩; linarith
+    · rw [Bool.eq_false_iff, Ne, s3]; rintro ⟨_, _, _, h, h'⟩; linarith
+    · rw [Bool.eq_false_iff, Ne, s4]; rintro ⟨_, h, h', _, _⟩; linarith
+    · have e2 : crosses (x1, y0) (x1, y1) (px, py) = true := by
+        rw [c2]; left; refine ⟨h3.le, h4, ?_⟩; nlinarith
+      have e4 : crosses (x0, y1) (x0, y0) (px, py) = false := by
+        rw [Bool.eq_false_iff, Ne, c4]
+        rintro (⟨h, h', _⟩ | ⟨_, _, h⟩)
+        · linarith
+        · nlinarith
+      rw [e2, e4]; rfl
+
+/-! ## 6. triangles: crossing number = the three half-plane tests = the denoted set of `Triangle` -/
+
+theorem orient_y_identity (a b c p : Pt K) :
+    orient a b p * (c.2 - p.2) + orient b c p * (a.2 - p.2) + orient c a p * (b.2 - p.2) = 0 := by
+  simp only [orient]; ring
+
+theorem orient_sum (a b c p : Pt K) : orient a b p + orient b c p + orient c a p = orient a b c := by
+  simp only [orient]; ring
+
+theorem orient_cycle (a b c : Pt K) : orient b c a = orient a b c := by simp only [orient]; ring
+
+/-- a point that is collinear with an edge and within its (half-open) y-range lies on the edge -/
+theorem straddle_collinear_onSeg (a b p : Pt K) (h0 : orient a b p = 0)
+    (hs : (a.2 ≤ p.2 ∧ p.2 < b.2) ∨ (b.2 ≤ p.2 ∧ p.2 < a.2)) : onSeg a b p = true := by
+  rw [onSeg_iff]
+  have hsplit := orient_split a b p
+  rw [h0] at hsplit
+  rcases hs with ⟨h1, h2⟩ | ⟨h1, h2⟩
+  · refine ⟨h0, ?_, ?_, (min_le_left _ _).trans h1, h2.le.trans (le_max_right _ _)⟩
+    · by_contra hc
+      obtain ⟨c1, c2⟩ := lt_min_iff.mp (not_le.mp hc)
+      have := mul_pos (sub_pos.mpr c1) (sub_pos.mpr h2)
+      have := mul_nonneg (sub_pos.mpr c2).le (sub_nonneg.mpr h1)
+      linarith
+    · by_contra hc
+      obtain ⟨c1, c2⟩ := max_lt_iff.mp (not_le.mp hc)
+      have := mul_pos (sub_pos.mpr c1) (sub_pos.mpr h2)
+      have := mul_nonneg (sub_pos.mpr c2).le (sub_nonneg.mpr h1)
+      nlinarith
+  · refine ⟨h0, ?_, ?_, (min_le_right _ _).trans h1, h2.le.trans (le_max_left _ _)⟩
+    · by_contra hc
+      obtain ⟨c1, c2⟩ := lt_min_iff.mp (not_le.mp hc)
+      have := mul_nonneg (sub_pos.mpr c1).le (sub_nonneg.mpr h1)
+      have := mul_pos (sub_pos.mpr c2) (sub_pos.mpr h2)
+      nlinarith
+    · by_contra hc
+      obtain ⟨c1, c2⟩ := max_lt_iff.mp (not_le.mp hc)
+      have := mul_nonneg (sub_pos.mpr c1).le (sub_nonneg.mpr h1)
+      have := mul_pos (sub_pos.mpr c2) (sub_pos.mpr h2)
+      nlinarith
+
+theorem xor3_rot (x y z : Bool) : xor x (xor y z) = xor y (xor z x) := by cases x <;> cases y <;> cases z <;> rfl
+
+/-- exactly one vertex (`a`) strictly above the ray -/
+theorem tri_core_one_above (a b c p : Pt K) (hdet : 0 < orient a b c)
+    (ha : p.2 < a.2) (hb : b.2 ≤ p.2) (hc : c.2 ≤ p.2)
+    (nab : onSeg a b p = false) (nbc : onSeg b c p = false) (nca : onSeg c a p = false) :
+    xor (crosses a b p) (xor (crosses b c p) (crosses c a p)) = true ↔
+      (0 < orient a b p ∧ 0 < orient b c p ∧ 0 < orient c a p) := by
+  have hbc : crosses b c p = false := by
+    rw [crosses_false_iff]; rintro (⟨_, h, _⟩ | ⟨_, h, _⟩) <;> linarith
+  have hab : crosses a b p = true ↔ orient a b p < 0 := by
+    rw [crosses_iff]
+    constructor
+    · rintro (⟨h, _, _⟩ | ⟨_, _, h⟩)
+      · linarith
+      · exact h
+    · intro h; exact Or.inr ⟨hb, ha, h⟩
+  have hca : crosses c a p = true ↔ 0 < orient c a p := by
+    rw [crosses_iff]
+    constructor
+    · rintro (⟨_, _, h⟩ | ⟨_, h, _⟩)
+      · exact h
+      · linarith
+    · intro h; exact Or.inl ⟨hc, ha, h⟩
+  have n1 : orient a b p ≠ 0 := fun h0 => by
+    have := straddle_collinear_onSeg a b p h0 (Or.inr ⟨hb, ha⟩); rw [nab] at this; exact Bool.false_ne_true this
+  have n2 : orient c a p ≠ 0 := fun h0 => by
+    have := straddle_collinear_onSeg c a p h0 (Or.inl ⟨hc, ha⟩); rw [nca] at this; exact Bool.false_ne_true this
+  have hY := orient_y_identity a b c p
+  have hS := orient_sum a b c p
+  have pa := sub_pos.mpr ha
+  have pb := sub_nonneg.mpr hb
+  have pc := sub_nonneg.mpr hc
+  rw [hbc, Bool.false_xor]
+  constructor
+  · intro hx
+    cases e1 : crosses a b p <;> cases e2 : crosses c a p <;> rw [e1, e2] at hx <;>
+      simp only [Bool.xor_self, Bool.xor_false, Bool.false_xor, Bool.false_eq_true] at hx
+    · -- only c→a crossed: the good case
+      have o2 : 0 < orient c a p := hca.mp e2
+      have o1 : 0 < orient a b p := by
+        have : ¬ orient a b p < 0 := fun h => by rw [hab.mpr h] at e1; exact Bool.noConfusion e1
+        exact lt_of_le_of_ne (not_lt.mp this) (Ne.symm n1)
+      have t1 := mul_nonneg o1.le pc
+      have t2 := mul_nonneg o2.le pb
+      have o3 : 0 ≤ orient b c p := by
+        by_contra hneg
+        have := mul_pos (neg_pos.mpr (not_le.mp hneg)) pa
+        nlinarith
+      refine ⟨o1, lt_of_le_of_ne o3 ?_, o2⟩
+      intro h0
+      rw [← h0] at hY
+      have z1 : orient a b p * (p.2 - c.2) = 0 := by nlinarith
+      have z2 : orient c a p * (p.2 - b.2) = 0 := by nlinarith
+      have ec : p.2 - c.2 = 0 := (mul_eq_zero.mp z1).resolve_left o1.ne'
+      have eb : p.2 - b.2 = 0 := (mul_eq_zero.mp z2).resolve_left o2.ne'
+      have ec' : c.2 = p.2 := by linarith
+      have eb' : b.2 = p.2 := by linarith
+      have s1 := orient_split a b p
+      have s2 := orient_split c a p
+      rw [eb', sub_self, mul_zero, zero_add] at s1
+      rw [ec', sub_self, mul_zero, add_zero] at s2
+      have hb1 : b.1 < p.1 := by
+        by_contra hge
+        have := mul_nonneg (sub_nonneg.mpr (not_lt.mp hge)) pa.le
+        nlinarith
+      have hc1 : p.1 < c.1 := by
+        by_contra hge
+        have := mul_nonneg (sub_nonneg.mpr (not_lt.mp hge)) pa.le
+        nlinarith
+      have : onSeg b c p = true := by
+        rw [onSeg_iff]
+        refine ⟨h0.symm, (min_le_left _ _).trans hb1.le, hc1.le.trans (le_max_right _ _), ?_, ?_⟩
+        · rw [eb', ec', min_self]
+        · rw [eb', ec', max_self]
+      rw [nbc] at this; exact Bool.noConfusion this
+    · -- only a→b crossed: the signed area would be negative
+      exfalso
+      have o1 : orient a b p < 0 := hab.mp e1
+      have o2 : orient c a p < 0 := by
+        have : ¬ 0 < orient c a p := fun h => by rw [hca.mpr h] at e2; exact Bool.noConfusion e2
+        exact lt_of_le_of_ne (not_lt.mp this) n2
+      have t1 := mul_nonneg (neg_pos.mpr o1).le pc
+      have t2 := mul_nonneg (neg_pos.mpr o2).le pb
+      have o3 : orient b c p ≤ 0 := by
+        by_contra hpos
+        have := mul_pos (not_le.mp hpos) pa
+        nlinarith
+      linarith
+  · rintro ⟨o1, _, o2⟩
+    have e1 : crosses a b p = false := by
+      rw [← Bool.not_eq_true, hab]; exact not_lt.mpr o1.le
+    rw [e1, hca.mpr o2]; rfl
+
+/-- exactly one vertex (`a`) not above the ray -/
+theorem tri_core_one_below (a b c p : Pt K) (hdet : 0 < orient a b c)
+    (ha : a.2 ≤ p.2) (hb : p.2 < b.2) (hc : p.2 < c.2)
+    (nab : onSeg a b p = false) (nca : onSeg c a p = false) :
+    xor (crosses a b p) (xor (crosses b c p) (crosses c a p)) = true ↔
+      (0 < orient a b p ∧ 0 < orient b c p ∧ 0 < orient c a p) := by
+  have hbc : crosses b c p = false := by
+    rw [crosses_false_iff]; rintro (⟨h, _, _⟩ | ⟨h, _, _⟩) <;> linarith
+  have hab : crosses a b p = true ↔ 0 < orient a b p := by
+    rw [crosses_iff]
+    constructor
+    · rintro (⟨_, _, h⟩ | ⟨h, _, _⟩)
+      · exact h
+      · linarith
+    · intro h; exact Or.inl ⟨ha, hb, h⟩
+  have hca : crosses c a p = true ↔ orient c a p < 0 := by
+    rw [crosses_iff]
+    constructor
+    · rintro (⟨h, _, _⟩ | ⟨_, _, h⟩)
+      · linarith
+      · exact h
+    · intro h; exact Or.inr ⟨ha, hc, h⟩
+  have n1 : orient a b p ≠ 0 := fun h0 => by
+    have := straddle_collinear_onSeg a b p h0 (Or.inl ⟨ha, hb⟩); rw [nab] at this; exact Bool.false_ne_true this
+  have n2 : orient c a p ≠ 0 := fun h0 => by
+    have := straddle_collinear_onSeg c a p h0 (Or.inr ⟨ha, hc⟩); rw [nca] at this; exact Bool.false_ne_true this
+  have hY := orient_y_identity a b c p
+  have hS := orient_sum a b c p
+  have pa := sub_nonneg.mpr ha
+  have pb := sub_pos.mpr hb
+  have pc := sub_pos.mpr hc
+  rw [hbc, Bool.false_xor]
+  constructor
+  · intro hx
+    cases e1 : crosses a b p <;> cases e2 : crosses c a p <;> rw [e1, e2] at hx <;>
+      simp only [Bool.xor_self, Bool.xor_false, Bool.false_xor, Bool.false_eq_true] at hx
+    · -- only c→a crossed: negative area
+      exfalso
+      have o2 : orient c a p < 0 := hca.mp e2
+      have o1 : orient a b p < 0 := by
+        have : ¬ 0 < orient a b p := fun h => by rw [hab.mpr h] at e1; exact Bool.noConfusion e1
+        exact lt_of_le_of_ne (not_lt.mp this) n1
+      have t1 := mul_pos (neg_pos.mpr o1) pc
+      have t2 := mul_pos (neg_pos.mpr o2) pb
+      have o3 : orient b c p ≤ 0 := by
+        by_contra hpos
+        have := mul_nonneg (not_le.mp hpos).le pa
+        nlinarith
+      linarith
+    · -- only a→b crossed: the good case
+      have o1 : 0 < orient a b p := hab.mp e1
+      have o2 : 0 < orient c a p := by
+        have : ¬ orient c a p < 0 := fun h => by rw [hca.mpr h] at e2; exact Bool.noConfusion e2
+        exact lt_of_le_of_ne (not_lt.mp this) (Ne.symm n2)
+      have t1 := mul_pos o1 pc
+      have t2 := mul_pos o2 pb
+      refine ⟨o1, ?_, o2⟩
+      by_contra hneg
+      have := mul_nonneg (neg_nonneg.mpr (not_lt.mp hneg)) pa
+      nlinarith
+  · rintro ⟨o1, _, o2⟩
+    have e2 : crosses c a p = false := by
+      rw [← Bool.not_eq_true, hca]; exact not_lt.mpr o2.le
+    rw [e2, hab.mpr o1]; rfl
+
+/-- **counter-clockwise triangle: the crossing-number test accepts exactly the points strictly on the inner side of
+    all three edges** (the general convex statement `convex_contains_iff` for n = 3) -/
+theorem tri_contains_iff (a b c p : Pt K) (hdet : 0 < orient a b c) :
+    polyContains ⟨[a, b, c], []⟩ p = true ↔ 0 < orient a b p ∧ 0 < orient b c p ∧ 0 < orient c a p := by
+  rw [polyContains_iff]
+  simp only [List.not_mem_nil, false_imp_iff, implies_true, and_true, ringLocate_interior_iff]
+  have hedges : ringEdges [a, b, c] = [(a, b), (b, c), (c, a)] := rfl
+  simp only [onRing, ringOdd, hedges, List.any_cons, List.any_nil, List.map_cons, List.map_nil, xorAll,
+    List.foldr_cons, List.foldr_nil, Bool.or_false, Bool.xor_false, Bool.or_eq_false_iff]
+  have hY := orient_y_identity a b c p
+  constructor
+  · rintro ⟨⟨nab, nbc, nca⟩, hx⟩
+    rcases lt_or_ge p.2 a.2 with ha | ha <;> rcases lt_or_ge p.2 b.2 with hb | hb <;> rcases lt_or_ge p.2 c.2 with hc | hc
+    · -- all above: nothing is crossed
+      exfalso
+      have e1 : crosses a b p = false := by rw [crosses_false_iff]; rintro (⟨h, _, _⟩ | ⟨h, _, _⟩) <;> linarith
+      have e2 : crosses b c p = false := by rw [crosses_false_iff]; rintro (⟨h, _, _⟩ | ⟨h, _, _⟩) <;> linarith
+      have e3 : crosses c a p = false := by rw [crosses_false_iff]; rintro (⟨h, _, _⟩ | ⟨h, _, _⟩) <;> linarith
+      rw [e1, e2, e3] at hx; exact Bool.noConfusion hx
+    · -- c below
+      have := (tri_core_one_below c a b p (by rw [orient_cycle, orient_cycle]; exact hdet) hc ha hb nca nbc).mp
+        (by rw [xor3_rot]; exact hx)
+      exact ⟨this.2.1, this.2.2, this.1⟩
+    · -- b below
+      have := (tri_core_one_below b c a p (by rw [orient_cycle]; exact hdet) hb hc ha nbc nab).mp
+        (by rw [← xor3_rot]; exact hx)
+      exact ⟨this.2.2, this.1, this.2.1⟩
+    · -- only a above
+      exact (tri_core_one_above a b c p hdet ha hb hc nab nbc nca).mp hx
+    · -- a below
+      exact (tri_core_one_below a b c p hdet ha hb hc nab nca).mp hx
+    · -- only b above
+      have := (tri_core_one_above b c a p (by rw [orient_cycle]; exact hdet) hb hc ha nbc nca nab).mp
+        (by rw [← xor3_rot]; exact hx)
+      exact ⟨this.2.2, this.1, this.2.1⟩
+    · -- only c above
+      have := (tri_core_one_above c a b p (by rw [orient_cycle, orient_cycle]; exact hdet) hc ha hb nca nab nbc).mp
+        (by rw [xor3_rot]; exact hx)
+      exact ⟨this.2.1, this.2.2, this.1⟩
+    · -- none above
+      exfalso
+      have e1 : crosses a b p = false := by rw [crosses_false_iff]; rintro (⟨_, h, _⟩ | ⟨_, h, _⟩) <;> linarith
+      have e2 : crosses b c p = false := by rw [crosses_false_iff]; rintro (⟨_, h, _⟩ | ⟨_, h, _⟩) <;> linarith
+      have e3 : crosses c a p = false := by rw [crosses_false_iff]; rintro (⟨_, h, _⟩ | ⟨_, h, _⟩) <;> linarith
+      rw [e1, e2, e3] at hx; exact Bool.noConfusion hx
+  · rintro ⟨o1, o2, o3⟩
+    have nab : onSeg a b p = false := by
+      rw [← Bool.not_eq_true, onSeg_iff]; rintro ⟨h, _⟩; linarith
+    have nbc : onSeg b c p = false := by
+      rw [← Bool.not_eq_true, onSeg_iff]; rintro ⟨h, _⟩; linarith
+    have nca : onSeg c a p = false := by
+      rw [← Bool.not_eq_true, onSeg_iff]; rintro ⟨h, _⟩; linarith
+    refine ⟨⟨nab, nbc, nca⟩, ?_⟩
+    rcases lt_or_ge p.2 a.2 with ha | ha <;> rcases lt_or_ge p.2 b.2 with hb | hb <;> rcases lt_or_ge p.2 c.2 with hc | hc
+    · exfalso
+      have := mul_pos o1 (sub_pos.mpr hc)
+      have := mul_pos o2 (sub_pos.mpr ha)
+      have := mul_pos o3 (sub_pos.mpr hb)
+      linarith
+    · rw [xor3_rot, xor3_rot]
+      exact (tri_core_one_below c a b p (by rw [orient_cycle, orient_cycle]; exact hdet) hc ha hb nca nbc).mpr ⟨o3, o1, o2⟩
+    · rw [xor3_rot]
+      exact (tri_core_one_below b c a p (by rw [orient_cycle]; exact hdet) hb hc ha nbc nab).mpr ⟨o2, o3, o1⟩
+    · exact (tri_core_one_above a b c p hdet ha hb hc nab nbc nca).mpr ⟨o1, o2, o3⟩
+    · exact (tri_core_one_below a b c p hdet ha hb hc nab nca).mpr ⟨o1, o2, o3⟩
+    · rw [xor3_rot]
+      exact (tri_core_one_above b c a p (by rw [orient_cycle]; exact hdet) hb hc ha nbc nca nab).mpr ⟨o2, o3, o1⟩
+    · rw [xor3_rot, xor3_rot]
+      exact (tri_core_one_above c a b p (by rw [orient_cycle, orient_cycle]; exact hdet) hc ha hb nca nab nbc).mpr ⟨o3, o1, o2⟩
+    · exfalso
+      have t1 := mul_nonneg o1.le (sub_nonneg.mpr hc)
+      have t2 := mul_nonneg o2.le (sub_nonneg.mpr ha)
+      have t3 := mul_nonneg o3.le (sub_nonneg.mpr hb)
+      have z1 : orient a b p * (p.2 - c.2) = 0 := by nlinarith
+      have z2 : orient b c p * (p.2 - a.2) = 0 := by nlinarith
+      have ec : p.2 - c.2 = 0 := (mul_eq_zero.mp z1).resolve_left o1.ne'
+      have ea : p.2 - a.2 = 0 := (mul_eq_zero.mp z2).resolve_left o2.ne'
+      have z3 : orient c a p * (p.2 - b.2) = 0 := by nlinarith
+      have eb : p.2 - b.2 = 0 := (mul_eq_zero.mp z3).resolve_left o3.ne'
+      have : orient a b p = 0 := by
+        simp only [orient]
+        have e1 : p.2 - a.2 = 0 := ea
+        have e2 : b.2 - a.2 = 0 := by linarith
+        rw [e1, e2]; ring
+      linarith
 
 end TPV.Poly
